@@ -172,8 +172,14 @@ def updateEntityMap (s : Store α) (e : α × Node α) (allowOverride : Bool) : 
     else if deepEq e.2 old then .ok s else .error .duplicate
   | none => .ok (s ++ [e])
 
-def createEntityMap (es : List (α × Node α)) : Res (Store α) :=
-  es.foldlM (fun s e => updateEntityMap s e false) []
+def createLoop (s : Store α) : List (α × Node α) → Res (Store α)
+  | [] => .ok s
+  | e :: es =>
+    match updateEntityMap s e false with
+    | .error err => .error err
+    | .ok s' => createLoop s' es
+
+def createEntityMap (es : List (α × Node α)) : Res (Store α) := createLoop [] es
 
 def tinsert (k : α) (t : List α) : List α := if k ∈ t then t else t ++ [k]
 
@@ -184,27 +190,31 @@ def touchPass (s : Store α) (t : List α) : List α :=
 def finish (mode : Mode) (closeTouched : Bool) (s : Store α) (t : List α) : Res (Store α) :=
   match mode with
   | .assume => .ok s
-  | .enforce => do enforceTcAndDag s; .ok s
+  | .enforce => (match enforceTcAndDag s with | .ok _ => .ok s | .error e => .error e)
   | .compute => repairTc (if closeTouched then touchPass s t else t) s
 
 /-! ### the four operations -/
 
-def fromEntities (mode : Mode) (es : List (α × Node α)) : Res (Store α) := do
-  let m ← createEntityMap es
-  match mode with
-  | .assume => .ok m
-  | .enforce => do enforceTcAndDag m; .ok m
-  | .compute => closure m
+def fromEntities (mode : Mode) (es : List (α × Node α)) : Res (Store α) :=
+  match createEntityMap es with
+  | .error e => .error e
+  | .ok m =>
+    match mode with
+    | .assume => .ok m
+    | .enforce => (match enforceTcAndDag m with | .ok _ => .ok m | .error e => .error e)
+    | .compute => closure m
 
 def addLoop (s : Store α) (t : List α) : List (α × Node α) → Res (Store α × List α)
   | [] => .ok (s, t)
-  | e :: es => do
-    let s' ← updateEntityMap s e false
-    addLoop s' (tinsert e.1 t) es
+  | e :: es =>
+    match updateEntityMap s e false with
+    | .error err => .error err
+    | .ok s' => addLoop s' (tinsert e.1 t) es
 
-def addEntities (mode : Mode) (s : Store α) (es : List (α × Node α)) : Res (Store α) := do
-  let (s1, t) ← addLoop s [] es
-  finish mode true s1 t
+def addEntities (mode : Mode) (s : Store α) (es : List (α × Node α)) : Res (Store α) :=
+  match addLoop s [] es with
+  | .error e => .error e
+  | .ok (s1, t) => finish mode true s1 t
 
 /-- what `remove_entities` does to a descendant of the removed `u` (whose record was `r`) -/
 def stripRemoved (u : α) (r : Node α) (n : Node α) : Node α :=
@@ -220,27 +230,21 @@ def removeOne (st : Store α × List α) (u : α) : Store α × List α :=
      s1.foldl (fun t kn => if u ∈ kn.2.out then tinsert kn.1 t else t) st.2)
 
 def removeEntities (mode : Mode) (s : Store α) (us : List α) : Res (Store α) :=
-  let (s1, t) := us.foldl removeOne (s, [])
-  finish mode false s1 t
+  finish mode false (us.foldl removeOne (s, [])).1 (us.foldl removeOne (s, [])).2
 
 /-- what `upsert_entities` does to a descendant of the overwritten `u` (old ancestors `oldAnc`) -/
 def stripUpsert (u : α) (oldAnc : List α) (n : Node α) : Node α :=
   { n with indirect := n.indirect.filter (fun y => decide (y ≠ u) && decide (y ∉ oldAnc)) }
 
 def upsertOne (st : Store α × List α) (e : α × Node α) : Store α × List α :=
-  let (s1, t1) := match get st.1 e.1 with
-    | none => st
-    | some old =>
-      (st.1.map (fun kn => if kn.1 ≠ e.1 ∧ e.1 ∈ kn.2.out then (kn.1, stripUpsert e.1 old.out kn.2) else kn),
-       st.1.foldl (fun t kn => if kn.1 ≠ e.1 ∧ e.1 ∈ kn.2.out then tinsert kn.1 t else t) st.2)
-  let s2 := match get s1 e.1 with
-    | some _ => set s1 e.1 e.2
-    | none => s1 ++ [e]
-  (s2, tinsert e.1 t1)
+  match get st.1 e.1 with
+  | none => (st.1 ++ [e], tinsert e.1 st.2)
+  | some old =>
+    (set (st.1.map (fun kn => if kn.1 ≠ e.1 ∧ e.1 ∈ kn.2.out then (kn.1, stripUpsert e.1 old.out kn.2) else kn)) e.1 e.2,
+     tinsert e.1 (st.1.foldl (fun t kn => if kn.1 ≠ e.1 ∧ e.1 ∈ kn.2.out then tinsert kn.1 t else t) st.2))
 
 def upsertEntities (mode : Mode) (s : Store α) (es : List (α × Node α)) : Res (Store α) :=
-  let (s1, t) := es.foldl upsertOne (s, [])
-  finish mode true s1 t
+  finish mode true (es.foldl upsertOne (s, [])).1 (es.foldl upsertOne (s, [])).2
 
 /-! ### histories -/
 
